@@ -319,24 +319,52 @@ class Gridder(GeospatialGrid):
             integrated_variables_second_parts,
         )
 
+    def _dateline_crossing_latitude(
+        self, lats, lons, dateline_crossing_idx, dateline_crossing_sign
+    ):
+        """Latitude at which the crossing segment (a straight line in
+        latitude/unwrapped longitude, like every other segment) meets the
+        dateline."""
+        lat_start = lats[dateline_crossing_idx]
+        lon_start = lons[dateline_crossing_idx]
+        if dateline_crossing_sign == -1:
+            lon_dateline = np.pi
+            lon_end = lons[dateline_crossing_idx + 1] + 2 * np.pi
+        else:
+            lon_dateline = -np.pi
+            lon_end = lons[dateline_crossing_idx + 1] - 2 * np.pi
+        if lon_end == lon_start:
+            return lat_start
+        return lat_start + (lats[dateline_crossing_idx + 1] - lat_start) * (
+            lon_dateline - lon_start
+        ) / (lon_end - lon_start)
+
     def _calculate_segment_lengths(
         self, lats, lons, dateline_crossing_idx, dateline_crossing_sign
     ):
+        crossing_lat = self._dateline_crossing_latitude(
+            lats, lons, dateline_crossing_idx, dateline_crossing_sign
+        )
+
         first_segment_length = great_circle_distance(
             lats[dateline_crossing_idx],
             lons[dateline_crossing_idx],
-            lats[dateline_crossing_idx],
+            crossing_lat,
             np.pi if dateline_crossing_sign == -1 else -np.pi,
         )
 
         second_segment_length = great_circle_distance(
-            lats[dateline_crossing_idx],
+            crossing_lat,
             -np.pi if dateline_crossing_sign == -1 else np.pi,
             lats[dateline_crossing_idx + 1],
             lons[dateline_crossing_idx + 1],
         )
 
         total_segment_length = first_segment_length + second_segment_length
+        if total_segment_length == 0:
+            # Both end points are the same point on the dateline: all of the
+            # segment's values go to the (zero-length) first part.
+            return 1.0, 0.0, 1.0
         return first_segment_length, second_segment_length, total_segment_length
 
     def _dateline_split_first_segment(
@@ -361,7 +389,13 @@ class Gridder(GeospatialGrid):
         lats_first_part = np.concatenate(
             (
                 lats[: dateline_crossing_idx + 1],
-                np.array([lats[dateline_crossing_idx]]),
+                np.array(
+                    [
+                        self._dateline_crossing_latitude(
+                            lats, lons, dateline_crossing_idx, dateline_crossing_sign
+                        )
+                    ]
+                ),
             )
         )
         altitudes_first_part = (
@@ -442,7 +476,13 @@ class Gridder(GeospatialGrid):
 
         lats_second_part = np.concatenate(
             (
-                np.array([lats[dateline_crossing_idx]]),
+                np.array(
+                    [
+                        self._dateline_crossing_latitude(
+                            lats, lons, dateline_crossing_idx, dateline_crossing_sign
+                        )
+                    ]
+                ),
                 lats[dateline_crossing_idx + 1 :],
             )
         )
